@@ -69,7 +69,7 @@ package flate
 //@   requires rdOK(f)
 //@   modifies b[*], f.err, f.state, f.writePos, f.readPos, f.historyBuffer, f.peekSize, f.eof, f.needInput, *f.rBuf, extReads, peekErr
 //@   ensures[C03 C04 inv] rdOK(f)
-//@   ensures[C04 deliver] 0 <= n && n <= len(b) && n <= old(f.writePos - f.readPos) || old(f.writePos) == old(f.readPos)
+//@   ensures[C04 deliver] 0 <= n && n <= len(b)
 //@   ensures[C04 deliver-pending] old(f.writePos) > old(f.readPos) ==> n == (len(b) < old(f.writePos - f.readPos) ? len(b) : old(f.writePos - f.readPos)) && f.readPos == old(f.readPos) + n && same(f.writePos) && same(f.historyBuffer) && extReads == old(extReads)
 //@   ensures[C03 C15 sticky] old(f.err) != nil && old(f.writePos) == old(f.readPos) ==> n == 0 && err == old(f.err) && f.err == old(f.err) && extReads == old(extReads)
 //@   ensures[C03 C15 err-recorded] err != nil ==> f.err == err && f.writePos == f.readPos
